@@ -116,6 +116,18 @@ fn run_case<'a>(ctx: &'a Ctx, case: u64, acc: &'a mut Acc) -> CaseFut<'a> {
                 return;
             }
         };
+        // in some histories the peer that will delete is not a member while the rows are written: it is disabled before,
+        // enabled again afterwards (its right to delete exists at the deletion date, not at the rows' date)
+        let late_joiner = n_peers >= 3 && rng.gen_bool(0.3);
+        let late = n_peers - 1;
+        if late_joiner {
+            sc.tick(5);
+            let key = sc.peers[late].id.vkey.clone();
+            let mut h = sc.room.clone();
+            if sc.peers[0].edit_room(&mut h, &crate::world::RoomEdit::User(0, key, false)).await.is_ok() {
+                sc.room = h;
+            }
+        }
         // rows created on peer 0 and spread everywhere
         sc.tick(10);
         sc.apply(&Op::CreateNested { peer: 0 }).await;
@@ -124,10 +136,20 @@ fn run_case<'a>(ctx: &'a Ctx, case: u64, acc: &'a mut Acc) -> CaseFut<'a> {
         sc.tick(10);
         // a reference between existing persons
         sc.apply(&Op::AddParent { peer: 0, row: 0, parent: 2 }).await;
+        if late_joiner {
+            sc.tick(50);
+            let key = sc.peers[late].id.vkey.clone();
+            let mut h = sc.room.clone();
+            if sc.peers[0].edit_room(&mut h, &crate::world::RoomEdit::User(0, key, true)).await.is_ok() {
+                sc.room = h;
+            }
+            sc.tick(5);
+            acc.count("late_joiner_histories", 1);
+        }
         // the rows reach most peers before the deletion, not necessarily all of them: a peer may learn the deletion of a
         // row it never held
         for p in 1..n_peers {
-            if p == 1 || rng.gen_bool(0.75) {
+            if p == 1 || (late_joiner && p == late) || rng.gen_bool(0.75) {
                 sc.apply(&Op::Pull { dst: p, src: 0, cut: None }).await;
             }
         }
@@ -150,7 +172,13 @@ fn run_case<'a>(ctx: &'a Ctx, case: u64, acc: &'a mut Acc) -> CaseFut<'a> {
             sc.tick(if placement == 2 { 7 } else { DAY });
         }
         // the deletion: node or reference, by a random peer
-        let deleter = if rng.gen_bool(0.5) { rng.gen_range(0..2.min(n_peers)) } else { rng.gen_range(0..n_peers) };
+        let deleter = if late_joiner {
+            late
+        } else if rng.gen_bool(0.5) {
+            rng.gen_range(0..2.min(n_peers))
+        } else {
+            rng.gen_range(0..n_peers)
+        };
         let del_ref = rng.gen_bool(0.35);
         let del = if del_ref {
             Op::DeleteRef { peer: deleter, row: 0, parent: 2 }
